@@ -13,6 +13,8 @@ Forbidden == {"intEntity", "extEntity", "paramEntity", "unparsedEntity", "extSub
 Defuses == {"always", "remote", "nonlocal", "never"}
 Localities == {"local", "remote", "none"}       \* class of the resource's URL; data (text / bytes / streams) has
                                                 \* the class of the base URL supplied with it, "none" without one
+(* The class is decided by the URL scheme: "local" = no scheme, file:, or a drive letter; "remote" = EVERY  *)
+(* other scheme (http, https, ftp, ftps, s3, ...) - there is no list of well-known remote schemes.       *)
 Applies(defuse, loc) == CASE defuse = "always"   -> TRUE
                           [] defuse = "never"    -> FALSE
                           [] defuse = "remote"   -> loc = "remote"
